@@ -276,7 +276,9 @@ type cfgOption struct {
 }
 
 func (c *cfgCase) flag(name, val string) { c.flags = append(c.flags, cfgFlag{name: name, val: val}) }
-func (c *cfgCase) boolFlag(name string)  { c.flags = append(c.flags, cfgFlag{name: name, boolean: true}) }
+func (c *cfgCase) boolFlag(name string) {
+	c.flags = append(c.flags, cfgFlag{name: name, boolean: true})
+}
 
 const cfgTemplate = "#!/bin/sh\n# {{.URL}}\ncurl -Nsk --pinnedpubkey 'sha256//{{.PubkeyFP}}' 'https://{{.URL}}/i/{{.ID}}' | sh\n"
 
@@ -711,6 +713,7 @@ func runCfgCase(r *mon.Run, c *cfgCase, ndamage int) {
 		r.Count("cfg_damaged_starts", 1)
 		r.Count("cfg_damaged_starts_via_"+c.via, 1)
 		r.Count("cfg_damage_class_"+class, 1)
+		r.Eval(1) // every start on a damaged cache is an execution of its own
 		r.Distinct(e + ":" + c.rel + ":" + strings.Join(c.opts, "+") + ":" + string(data))
 		switch out {
 		case "error":
